@@ -969,10 +969,15 @@ func (s *Sim) enabledLocked() []*G {
 	return en
 }
 
+// Heartbeat counts scheduling decisions of all runs of the process: a case
+// that is taking long but still takes steps is not hung.
+var Heartbeat atomic.Int64
+
 // release lets g proceed: bookkeeping for the operation it is about to enter.
 func (s *Sim) release(g *G) {
 	p := &g.pend
 	s.steps++
+	Heartbeat.Add(1)
 	s.logf("step %d run g%d", s.steps, g.ID)
 	if p.phase == phPre {
 		switch p.kind {
